@@ -691,6 +691,27 @@ impl Engine {
                     Err(_) => vec![9],
                 }
             }
+            116 => {
+                // Ref::map / RefMut::map (identity projection): the old guard is consumed, the new one holds the same borrow
+                let i = r.next() as usize;
+                if i >= self.guards.slots.len() || !(self.guards.slots[i].kind == 5 || self.guards.slots[i].kind == 6) {
+                    return vec![8];
+                }
+                let (kind, t) = (self.guards.slots[i].kind, self.guards.slots[i].ty);
+                let old = self.guards.slots[i].obj.take().unwrap();
+                let mut newobj: Option<Box<dyn Any>> = None;
+                with_comp!(t, C, {
+                    if kind == 5 {
+                        let r0 = *old.downcast::<Ref<'static, C>>().expect("slot type");
+                        newobj = Some(Box::new(Ref::map(r0, |c| c)));
+                    } else {
+                        let r0 = *old.downcast::<RefMut<'static, C>>().expect("slot type");
+                        newobj = Some(Box::new(RefMut::map(r0, |c| c)));
+                    }
+                });
+                self.guards.slots[i].obj = newobj;
+                vec![0]
+            }
             114 => {
                 let mut obs = Vec::new();
                 self.dump_cells(&mut obs);
